@@ -12,6 +12,9 @@ def get_class_counts(classes, n_classes):
             classes = torch.from_numpy(classes).long()
         else:
             classes = torch.tensor(classes, dtype=torch.long)
+    else:
+        # narrow label dtypes: a uint8 tensor used as index is interpreted as mask, int16 is not a valid index dtype
+        classes = classes.long()
     # count unlabeled classes
     unlabeled_count = (classes == -1).sum().item()
     # filter out unlabeled
